@@ -30,6 +30,20 @@ def branch_of(fi, node, names=("Truest", "Falsest")):
     return None
 
 
+def xor_quotient_guard(ctx, rule, d, r, consequence=""):
+    """the exclusive-or formula divides by (truest - FUZZY_MIN): every use of that quotient is selected away by
+    where(truest <= FUZZY_MIN, FUZZY_MIN, ...) - a later item store through the (masked) comparison does not un-mask the 0/0 cells"""
+    con = "%s.execute::guarded-quotient" % d.key
+    divs = [x for x in r.divisions if isinstance(x[2], Arr) and x[2].sel == ("Top", 1)]
+    if not divs:
+        raise AnalysisError("%s: no division by (Top(1) - FUZZY_MIN) found in FuzzyXOr" % rule)
+    bad_rets = [(n, s_, v) for n, s_, v in R.ret_sites(d, r) if isinstance(v, Arr) and v.unguarded]
+    if bad_rets:
+        ctx.violate(rule, con, d.module.rel, divs[0][0], "the quotient whose divisor is Top(1) - FUZZY_MIN reaches the result without a guard selecting FUZZY_MIN where Top(1) <= FUZZY_MIN (a `<` test, a swapped branch or no where() at all): when every input is fully false the cell is 0/0" + consequence)
+    else:
+        ctx.hold(rule, con, d.module.rel, divs[0][0], "every use of the quotient by (Top(1) - FUZZY_MIN) is selected by where(Top(1) <= FUZZY_MIN, FUZZY_MIN, ...)")
+
+
 def run(ctx, idx):
     ctx.assume("numpy axioms A11/A12: an ascending layer-axis sort puts the truest layer last; [-k:] selects the k truest, [:k] the k falsest")
     ctx.rule("C06.a", "Every declared data input flows into the returned value (for list inputs: the first element and the rest).")
@@ -133,13 +147,4 @@ def run(ctx, idx):
         ctx.hold("C06.d", con, d.module.rel, fi.node.lineno, "reads Top(1) and Top(2) of the ascending layer sort")
     else:
         ctx.violate("C06.d", con, d.module.rel, fi.node.lineno, "the exclusive-or reads layers %s instead of the truest and second truest" % sorted(map(str, sels)))
-    con = "%s.execute::guarded-quotient" % d.key
-    divs = [x for x in r.divisions if isinstance(x[2], Arr) and x[2].sel == ("Top", 1)]
-    if not divs:
-        raise AnalysisError("C06.d: no division by (Top(1) - FUZZY_MIN) found in FuzzyXOr")
-    bad_rets = [(n, s_, v) for n, s_, v in R.ret_sites(d, r) if isinstance(v, Arr) and v.unguarded]
-    if bad_rets:
-        n, s_, v = bad_rets[0]
-        ctx.violate("C06.d", con, d.module.rel, divs[0][0], "the quotient whose divisor is Top(1) - FUZZY_MIN reaches the result without a guard selecting FUZZY_MIN where Top(1) <= FUZZY_MIN (a `<` test, a swapped branch or no where() at all): when every input is fully false the cell is 0/0")
-    else:
-        ctx.hold("C06.d", con, d.module.rel, divs[0][0], "every use of the quotient by (Top(1) - FUZZY_MIN) is selected by where(Top(1) <= FUZZY_MIN, FUZZY_MIN, ...)")
+    xor_quotient_guard(ctx, "C06.d", d, r)
